@@ -232,10 +232,14 @@ static force_inline void accum_float(unsigned int *satot, unsigned int *srtot,
 {
     const argb_t *pixel = p;
 
-    *satot += pixel->a * f;
-    *srtot += pixel->r * f;
-    *sgtot += pixel->g * f;
-    *sbtot += pixel->b * f;
+    /* The totals are signed 16.16 numbers kept in unsigned variables
+     * (modulo 2^32): add the product as a signed integer instead of
+     * converting a possibly negative float sum to unsigned.
+     */
+    *satot += (unsigned int)(int32_t)(pixel->a * f);
+    *srtot += (unsigned int)(int32_t)(pixel->r * f);
+    *sgtot += (unsigned int)(int32_t)(pixel->g * f);
+    *sbtot += (unsigned int)(int32_t)(pixel->b * f);
 }
 
 static force_inline void reduce_float(unsigned int satot, unsigned int srtot,
@@ -244,10 +248,11 @@ static force_inline void reduce_float(unsigned int satot, unsigned int srtot,
 {
     argb_t *ret = p;
 
-    ret->a = CLIP (satot / 65536.f, 0.f, 1.f);
-    ret->r = CLIP (srtot / 65536.f, 0.f, 1.f);
-    ret->g = CLIP (sgtot / 65536.f, 0.f, 1.f);
-    ret->b = CLIP (sbtot / 65536.f, 0.f, 1.f);
+    /* interpret the totals as signed: a negative total is clamped to 0 */
+    ret->a = CLIP ((int32_t)satot / 65536.f, 0.f, 1.f);
+    ret->r = CLIP ((int32_t)srtot / 65536.f, 0.f, 1.f);
+    ret->g = CLIP ((int32_t)sgtot / 65536.f, 0.f, 1.f);
+    ret->b = CLIP ((int32_t)sbtot / 65536.f, 0.f, 1.f);
 }
 
 typedef void (* accumulate_pixel_t) (unsigned int *satot, unsigned int *srtot,
